@@ -170,10 +170,24 @@ fn check(c: &Case, ctx: &Ctx, via_cli: bool) -> Outcome {
                 let mut args: Vec<String> = vec!["align".into()];
                 args.extend(align_args(f, n));
                 args.push("t.skf".into());
+                // half of the cases write to a file with -o instead of stdout
+                let to_file = (t.rows.len() + n + i) % 2 == 1;
+                if to_file {
+                    let _ = std::fs::remove_file(d.join("aln_out.fa"));
+                    args.push("-o".into());
+                    args.push("aln_out.fa".into());
+                }
                 let argv: Vec<&str> = args.iter().map(|s| s.as_str()).collect();
                 let o = run_ska(ctx, d, &argv);
                 must_ok(&o, &format!("ska {}", args.join(" ")))?;
-                model::parse_fasta(&o.out_str())
+                if to_file {
+                    if !o.stdout.is_empty() {
+                        return Err(Outcome::Fail(format!("ska {} wrote to stdout although -o was given", args.join(" "))));
+                    }
+                    model::parse_fasta(&std::fs::read_to_string(d.join("aln_out.fa")).map_err(|e| Outcome::Fail(format!("ska {} succeeded but the -o file is missing: {e}", args.join(" "))))?)
+                } else {
+                    model::parse_fasta(&o.out_str())
+                }
             } else if k <= 31 {
                 inproc_align::<u64>(&t, k, rc, f).map_err(Outcome::Fail)?
             } else {
